@@ -216,8 +216,10 @@ def run(F, R, tier):
             continue
         B = mir.Body(fn, F)
         for bi, w, r, t in B.calls_named("ProxyServer::handle_new_http_request"):
-            org = B.origins(t["args"][2])
-            ok = org and all(o[0] == "param" and "tcp_connection_context" in str(o[1]) for o in org)
+            # whatever the captured copies are called, followed up the closure chain they are the object the accept task built
+            from lib import contracts as _ct
+            org = _ct.parent_terms(F, B, B.origins(t["args"][2]), depth=6)
+            ok = org and all(o[0] == "call" and q.ends(o[1], "TcpConnectionContext::new") for o in org)
             R.check(ok, "C07.R3", R.key("C07.R3", c, "context-arg"), q.where(B, bi),
                     "the request handler receives (a clone of) the captured per-connection context: %s" % sorted(map(str, org)),
                     "context handed to the request handler has origins %s" % sorted(map(str, org)))
